@@ -6,7 +6,7 @@ From incr Require Import Base Heap HeapSpec HeapProofs EngineDefs Engine EngineW
 
 (** * 0. Basics: results, node access *)
 
-Lemma ebind_ok (m : M) (k : state -> M) s' e :
+Lemma ebind_cases (m : M) (k : state -> M) s' e :
   ebind m k = Ok (s', e) ->
   exists s1 e1, m = Ok (s1, e1) /\
     ((exists x, e1 = Some x /\ s' = s1 /\ e = e1) \/ (e1 = None /\ k s1 = Ok (s', e))).
@@ -17,12 +17,12 @@ Proof.
   - right. auto.
 Qed.
 
-Lemma lift_ok (m : res state) s' e : lift m = Ok (s', e) -> m = Ok s' /\ e = None.
+Lemma lift_cases (m : res state) s' e : lift m = Ok (s', e) -> m = Ok s' /\ e = None.
 Proof.
   unfold lift, ok. intros H. apply rbind_ok in H as (s1 & Hm & H). injection H as <- <-. auto.
 Qed.
 
-Lemma nd_upd s n f m :
+Lemma nd_upd_if s n f m :
   nd (upd s n f) m =
   if decide (m = n) then (if nodes s !! n then f (nd s n) else dummy) else nd s m.
 Proof.
@@ -31,21 +31,21 @@ Proof.
   - rewrite lookup_alter_ne by congruence. reflexivity.
 Qed.
 
-Lemma nd_upd_eq s n f : is_Some (nodes s !! n) -> nd (upd s n f) n = f (nd s n).
-Proof. intros [x Hx]. rewrite nd_upd, decide_True by reflexivity. rewrite Hx. reflexivity. Qed.
+Lemma nd_upd_same s n f : is_Some (nodes s !! n) -> nd (upd s n f) n = f (nd s n).
+Proof. intros [x Hx]. rewrite nd_upd_if, decide_True by reflexivity. rewrite Hx. reflexivity. Qed.
 
-Lemma nd_upd_ne s n f m : m <> n -> nd (upd s n f) m = nd s m.
-Proof. intros H. rewrite nd_upd, decide_False by exact H. reflexivity. Qed.
+Lemma nd_upd_other s n f m : m <> n -> nd (upd s n f) m = nd s m.
+Proof. intros H. rewrite nd_upd_if, decide_False by exact H. reflexivity. Qed.
 
 (* a projection the update does not touch *)
-Lemma nd_upd_proj {A} (g : node -> A) s n f m :
+Lemma nd_upd_keep {A} (g : node -> A) s n f m :
   (forall x, g (f x) = g x) -> g (nd (upd s n f) m) = g (nd s m).
 Proof.
-  intros Hg. rewrite nd_upd. destruct (decide (m = n)) as [->|]; [|reflexivity].
+  intros Hg. rewrite nd_upd_if. destruct (decide (m = n)) as [->|]; [|reflexivity].
   unfold nd. destruct (nodes s !! n); cbn; [apply Hg|reflexivity].
 Qed.
 
-Lemma nodes_upd s n f m : nodes (upd s n f) !! m = (if decide (m = n) then f <$> nodes s !! m else nodes s !! m).
+Lemma nodes_upd_if s n f m : nodes (upd s n f) !! m = (if decide (m = n) then f <$> nodes s !! m else nodes s !! m).
 Proof.
   unfold upd. cbn. destruct (decide (m = n)) as [->|Hne].
   - apply lookup_alter.
@@ -54,7 +54,7 @@ Qed.
 
 Lemma some_upd s n f m : is_Some (nodes (upd s n f) !! m) <-> is_Some (nodes s !! m).
 Proof.
-  rewrite nodes_upd. destruct (decide (m = n)); [|reflexivity]. rewrite fmap_is_Some. reflexivity.
+  rewrite nodes_upd_if. destruct (decide (m = n)); [|reflexivity]. rewrite fmap_is_Some. reflexivity.
 Qed.
 
 Lemma nd_some_kind s n : nkind (nd s n) <> KReturn -> is_Some (nodes s !! n).
@@ -165,7 +165,7 @@ Section Frame.
   Proof.
     intros Hf. induction l as [|a l IH]; intros s s' e H; cbn in H.
     - injection H as <- <-. apply R_refl.
-    - apply ebind_ok in H as (s1 & e1 & H1 & [(x & -> & -> & ->)|(-> & H)]).
+    - apply ebind_cases in H as (s1 & e1 & H1 & [(x & -> & -> & ->)|(-> & H)]).
       + eapply Hf, H1.
       + eapply R_trans; [eapply Hf, H1|eapply IH, H].
   Qed.
@@ -269,19 +269,19 @@ Section Frame.
     set (s0 := if inGraph (nd s n) then addNode s n else emit (EvNec n) (addNode s n)) in *.
     assert (R0 : R s s0).
     { pose proof (fr_addNode s n). unfold s0. destruct (inGraph (nd s n)); rs. }
-    apply ebind_ok in H as (s1 & e1 & H1%fr_setHeight & [(x & -> & -> & ->)|(-> & H)]); [rs|].
-    apply ebind_ok in H as (s2 & e2 & H2 & H).
+    apply ebind_cases in H as (s1 & e1 & H1%fr_setHeight & [(x & -> & -> & ->)|(-> & H)]); [rs|].
+    apply ebind_cases in H as (s2 & e2 & H2 & H).
     assert (R12 : R s1 s2).
     { revert H2. apply fr_efold. intros t p t' e' G.
       pose proof (fr_link t n p) as Hl.
       set (t0 := if valid (nd (link t n p) p) then link t n p else _) in *.
       assert (RR4 : R t t0) by (unfold t0; destruct (valid _); rs).
-      apply ebind_ok in G as (t1 & e1 & G1 & [(x & -> & -> & ->)|(-> & G)]).
+      apply ebind_cases in G as (t1 & e1 & G1 & [(x & -> & -> & ->)|(-> & G)]).
       - destruct (isNecessary _); [injection G1 as <- ?|apply IH in G1]; rs.
       - assert (RR5 : R t0 t1) by (destruct (isNecessary _); [injection G1 as <-; rs|apply IH in G1; rs]).
         destruct (_ >=? _); [apply fr_setHeight in G|injection G as <- <-]; rs. }
     destruct H as [(x & -> & -> & ->)|(-> & H)]; [rs|].
-    destruct (isStale _ _); [apply lift_ok in H as [H%fr_heapAddIfNotPresent _]|injection H as <- <-]; rs.
+    destruct (isStale _ _); [apply lift_cases in H as [H%fr_heapAddIfNotPresent _]|injection H as <- <-]; rs.
   Qed.
 
   Lemma fr_addChildWithoutAdjustingHeights fuel s c p s' e :
@@ -304,7 +304,7 @@ Section Frame.
   Proof.
     unfold ensureHeightRequirement, fail, ok. destruct (bool_decide _); [intros [= <- <-]; rs|].
     destruct (_ >=? _); [|intros [= <- <-]; rs]. intros H.
-    apply ebind_ok in H as (s1 & e1 & [H1%fr_adjAdd ->]%lift_ok & [(x & [=] & _)|(_ & H%fr_setHeight)]).
+    apply ebind_cases in H as (s1 & e1 & [H1%fr_adjAdd ->]%lift_cases & [(x & [=] & _)|(_ & H%fr_setHeight)]).
     rs.
   Qed.
 
@@ -320,13 +320,13 @@ Section Frame.
     destruct (_ <=? 0); [injection H as <- <-; rs|].
     apply rbind_ok in H as ([popped s1] & H1%fr_adjRemoveMin & H).
     destruct popped as [p|]; [|discriminate].
-    apply ebind_ok in H as (s2 & e2 & [H2 ->]%lift_ok & [(x & [=] & _)|(_ & H)]).
+    apply ebind_cases in H as (s2 & e2 & [H2 ->]%lift_cases & [(x & [=] & _)|(_ & H)]).
     assert (RR6 : R s1 s2) by (destruct (inHeap s1 p); [apply fr_heapFix in H2|injection H2 as <-]; rs).
-    apply ebind_ok in H as (s3 & e3 & H3 & H).
+    apply ebind_cases in H as (s3 & e3 & H3 & H).
     assert (RR7 : R s2 s3).
     { revert H3. apply fr_efold. intros ? ? ? ?. apply fr_ensureHeightRequirement. }
     destruct H as [(x & -> & -> & ->)|(-> & H)]; [rs|].
-    apply ebind_ok in H as (s4 & e4 & H4 & H).
+    apply ebind_cases in H as (s4 & e4 & H4 & H).
     assert (RR8 : R s3 s4).
     { destruct (nkind (nd s3 p)); try (injection H4 as <- <-; rs).
       revert H4. apply fr_efold. intros ? ? ? ?.
@@ -337,18 +337,18 @@ Section Frame.
   Lemma fr_adjustHeights fuel s c p s' e : adjustHeights fuel s c p = Ok (s', e) -> R s s'.
   Proof.
     unfold adjustHeights. intros H.
-    apply ebind_ok in H as (s1 & e1 & H1%fr_ensureHeightRequirement & [(x & -> & -> & ->)|(-> & H%fr_adjustLoop)]); rs.
+    apply ebind_cases in H as (s1 & e1 & H1%fr_ensureHeightRequirement & [(x & -> & -> & ->)|(-> & H%fr_adjustLoop)]); rs.
   Qed.
 
   Lemma fr_addChild fuel s c p s' e : addChild fuel s c p = Ok (s', e) -> R s s'.
   Proof.
     unfold addChild. intros H.
-    apply ebind_ok in H as (s1 & e1 & H1%fr_addChildWithoutAdjustingHeights & [(x & -> & -> & ->)|(-> & H)]); [rs|].
-    apply ebind_ok in H as (s2 & e2 & H2 & H).
+    apply ebind_cases in H as (s1 & e1 & H1%fr_addChildWithoutAdjustingHeights & [(x & -> & -> & ->)|(-> & H)]); [rs|].
+    apply ebind_cases in H as (s2 & e2 & H2 & H).
     assert (RR9 : R s1 s2) by (destruct (_ >=? _); [apply fr_adjustHeights in H2|injection H2 as <- <-]; rs).
     destruct H as [(x & -> & -> & ->)|(-> & H)]; [rs|].
-    apply ebind_ok in H as (s3 & e3 & [H3%fr_propagateInvalidity ->]%lift_ok & [(x & [=] & _)|(_ & H)]).
-    destruct (_ || _); [apply lift_ok in H as [H%fr_heapAddIfNotPresent _]|injection H as <- <-]; rs.
+    apply ebind_cases in H as (s3 & e3 & [H3%fr_propagateInvalidity ->]%lift_cases & [(x & [=] & _)|(_ & H)]).
+    destruct (_ || _); [apply lift_cases in H as [H%fr_heapAddIfNotPresent _]|injection H as <- <-]; rs.
   Qed.
 
   Lemma fr_changeParent fuel s c o n s' e : changeParent fuel s c o n = Ok (s', e) -> R s s'.
@@ -356,9 +356,9 @@ Section Frame.
     unfold changeParent. intros H. destruct o as [o|], n as [n|].
     - destruct (bool_decide _); [injection H as <- <-; rs|].
       pose proof (fr_unlink s c o).
-      apply ebind_ok in H as (s1 & e1 & H1%fr_addChild & [(x & -> & -> & ->)|(-> & H)]); [rs|].
-      apply lift_ok in H as [H%fr_checkIfUnnecessary _]. rs.
-    - pose proof (fr_unlink s c o). apply lift_ok in H as [H%fr_checkIfUnnecessary _]. rs.
+      apply ebind_cases in H as (s1 & e1 & H1%fr_addChild & [(x & -> & -> & ->)|(-> & H)]); [rs|].
+      apply lift_cases in H as [H%fr_checkIfUnnecessary _]. rs.
+    - pose proof (fr_unlink s c o). apply lift_cases in H as [H%fr_checkIfUnnecessary _]. rs.
     - apply fr_addChild in H. rs.
     - injection H as <- <-. rs.
   Qed.
@@ -455,9 +455,9 @@ Section Frame.
     assert (RR11 : R s s1) by (unfold s0 in R01; rs). clear R01.
     destruct e1; [injection H as <- <-; rs|].
     destruct built as [root|]; [|discriminate].
-    apply ebind_ok in H as (s2 & e2 & H2%fr_changeParent & [(x & -> & -> & ->)|(-> & H)]); [rs|].
-    apply ebind_ok in H as (s3 & e3 & [H3 ->]%lift_ok & [(x & [=] & _)|(_ & H)]).
-    apply lift_ok in H as [H%fr_propagateInvalidity _].
+    apply ebind_cases in H as (s2 & e2 & H2%fr_changeParent & [(x & -> & -> & ->)|(-> & H)]); [rs|].
+    apply ebind_cases in H as (s3 & e3 & [H3 ->]%lift_cases & [(x & [=] & _)|(_ & H)]).
+    apply lift_cases in H as [H%fr_propagateInvalidity _].
     assert (RR12 : R s2 s3); [|rs].
     destruct (b_rhs (bd s b)); [|injection H3 as <-; rs].
     revert H3. apply fr_rfold. intros ? ? ?. apply fr_invalidateNode.
@@ -680,7 +680,7 @@ Proof.
   - intros m. apply some_upd.
   - intros I. split.
     + intros m Hm. apply (proj1 (some_upd s n f m)) in Hm. apply I, Hm.
-    + intros m _. split; [apply (nd_upd_proj nkind), Hk|apply (nd_upd_proj scope), Hs].
+    + intros m _. split; [apply (nd_upd_keep nkind), Hk|apply (nd_upd_keep scope), Hs].
   - exists []. split; [reflexivity|constructor].
 Qed.
 
@@ -745,3 +745,356 @@ Lemma pf_removeParents fuel s n s' : removeParents fuel s n = Ok s' -> pframe s 
 Proof. revert fuel s n s'. apply (pass_frame_thm (fun R => forall fuel s n s', removeParents fuel s n = Ok s' -> R s s')). intros. eapply fr_removeParents; eauto. Qed.
 Lemma pf_invoke p s n w s' e : invoke p s n w = Ok (s', e) -> pframe s s'.
 Proof. revert p s n w s' e. apply (pass_frame_thm (fun R => forall p s n w s' e, invoke p s n w = Ok (s', e) -> R s s')). intros. eapply fr_invoke; eauto. Qed.
+
+(** * 2. More basics: states that differ in the heap only; [setStale]; [wfb] clauses *)
+
+Lemma set_heap_id (s : state) : s <| heap := heap s |> = s.
+Proof. destruct s; reflexivity. Qed.
+
+Definition heapOnly (s s' : state) : Prop := exists w, s' = s <| heap := w |>.
+
+Lemma heapOnly_refl s : heapOnly s s.
+Proof. exists (heap s). symmetry. apply set_heap_id. Qed.
+
+Lemma heapOnly_trans s1 s2 s3 : heapOnly s1 s2 -> heapOnly s2 s3 -> heapOnly s1 s3.
+Proof. intros [w1 ->] [w2 ->]. exists w2. destruct s1; reflexivity. Qed.
+
+Lemma heapOnly_nd s s' m : heapOnly s s' -> nd s' m = nd s m.
+Proof. intros [w ->]. reflexivity. Qed.
+
+Lemma heapOnly_nodes s s' : heapOnly s s' -> nodes s' = nodes s.
+Proof. intros [w ->]. reflexivity. Qed.
+
+Lemma heapAdd_heapOnly s n s' : heapAdd s n = Ok s' -> heapOnly s s'.
+Proof. unfold heapAdd. intros H. apply rbind_ok in H as (w & _ & [= <-]). exists w. reflexivity. Qed.
+
+Lemma heapAddIfNotPresent_heapOnly s n s' : heapAddIfNotPresent s n = Ok s' -> heapOnly s s'.
+Proof.
+  unfold heapAddIfNotPresent. destruct (inHeap s n); [intros [= <-]; apply heapOnly_refl|apply heapAdd_heapOnly].
+Qed.
+
+Lemma heapAdd_inHeap s n s' m : heapAdd s n = Ok s' -> inHeap s' m = (bool_decide (m = n) || inHeap s m).
+Proof.
+  unfold heapAdd, inHeap. intros H. apply rbind_ok in H as (w & Hw & [= <-]). cbn.
+  eapply mem_add, Hw.
+Qed.
+
+Lemma heapAddIfNotPresent_inHeap s n s' m :
+  heapAddIfNotPresent s n = Ok s' -> inHeap s' m = (bool_decide (m = n) || inHeap s m).
+Proof.
+  unfold heapAddIfNotPresent. destruct (inHeap s n) eqn:E; [|apply heapAdd_inHeap].
+  intros [= <-]. destruct (decide (m = n)) as [->|Hne].
+  - rewrite E, bool_decide_eq_true_2 by reflexivity. reflexivity.
+  - rewrite bool_decide_eq_false_2 by exact Hne. reflexivity.
+Qed.
+
+Lemma heapRemove_inHeap s n s' m :
+  heapRemove s n = Ok s' -> inHeap s' m = (negb (bool_decide (m = n)) && inHeap s m).
+Proof.
+  unfold heapRemove, inHeap. intros H. apply rbind_ok in H as (w & Hw & [= <-]). cbn.
+  eapply mem_remove, Hw.
+Qed.
+
+Lemma heapAdd_total s n : 0 <= height (nd s n) -> exists s', heapAdd s n = Ok s'.
+Proof.
+  intros Hh. unfold heapAdd. destruct (add_ok (heap s) n _ Hh) as [w ->]. cbn. eauto.
+Qed.
+
+(* SetStale: either nothing, or the stamp and (perhaps) one heap insertion *)
+Lemma setStale_spec s n s' :
+  setStale s n = Ok s' ->
+  (height (nd s n) = unset /\ s' = s) \/
+  (height (nd s n) <> unset /\ heapOnly (upd s n (set setAt (fun _ => stabNum s))) s' /\ inHeap s' n = true).
+Proof.
+  unfold setStale. destruct (Z.eqb_spec (height (nd s n)) unset) as [E|E]; [intros [= <-]; auto|].
+  right. split; [exact E|]. destruct (inHeap _ n) eqn:Hin.
+  - injection H as <-. split; [apply heapOnly_refl|exact Hin].
+  - split; [eapply heapAdd_heapOnly, H|]. erewrite heapAdd_inHeap by exact H.
+    rewrite bool_decide_eq_true_2 by reflexivity. reflexivity.
+Qed.
+
+Lemma setStale_total s n : -1 <= height (nd s n) -> exists s', setStale s n = Ok s'.
+Proof.
+  intros Hh. unfold setStale. destruct (Z.eqb_spec (height (nd s n)) unset) as [E|E]; [eauto|].
+  destruct (inHeap _ n); [eauto|]. apply heapAdd_total.
+  rewrite (nd_upd_keep height) by (intros []; reflexivity). unfold unset in E. lia.
+Qed.
+
+(* what SetStale leaves alone: every node field but [setAt] *)
+Lemma setStale_nd s n s' m :
+  setStale s n = Ok s' -> exists a, nd s' m = nd s m <| setAt := a |>.
+Proof.
+  intros [[_ ->]|(_ & Ho & _)]%setStale_spec.
+  - exists (setAt (nd s m)). destruct (nd s m); reflexivity.
+  - rewrite (heapOnly_nd _ _ m Ho), nd_upd_if. destruct (decide (m = n)) as [->|Hne].
+    + destruct (nodes s !! n) eqn:E.
+      * eexists. reflexivity.
+      * exists (setAt dummy). unfold nd. rewrite E. reflexivity.
+    + exists (setAt (nd s m)). destruct (nd s m); reflexivity.
+Qed.
+
+Lemma isVar_upd s n f w : (forall x, nkind (f x) = nkind x) -> isVar (upd s n f) w = isVar s w.
+Proof.
+  intros Hk. unfold isVar. rewrite nodes_upd_if. destruct (decide (w = n)) as [->|]; [|reflexivity].
+  destruct (nodes s !! n); cbn; [rewrite Hk|]; reflexivity.
+Qed.
+
+Lemma isVar_heapOnly s s' w : heapOnly s s' -> isVar s' w = isVar s w.
+Proof. intros [x ->]. reflexivity. Qed.
+
+Lemma setStale_isVar s n s' w : setStale s n = Ok s' -> isVar s' w = isVar s w.
+Proof.
+  intros [[_ ->]|(_ & Ho & _)]%setStale_spec; [reflexivity|].
+  rewrite (isVar_heapOnly _ _ w Ho). apply isVar_upd. intros []; reflexivity.
+Qed.
+
+(** the clauses of [wfb] *)
+Lemma wfb_clauses s : wfb s = true ->
+  edges_symmetric s = true /\ unregistered_zeroed s = true /\ registered_iff_necessary s = true /\
+  parents_are_declared s = true /\ heights_ordered s = true /\ queued_ok s = true /\
+  counts_ok s = true /\ transients_empty s = true /\ observers_ok s = true /\ binds_ok s = true.
+Proof.
+  unfold wfb, codes. intros H%bool_decide_eq_true.
+  destruct (edges_symmetric s); [|discriminate].
+  destruct (unregistered_zeroed s); [|discriminate].
+  destruct (registered_iff_necessary s); [|discriminate].
+  destruct (parents_are_declared s); [|discriminate].
+  destruct (heights_ordered s); [|discriminate].
+  destruct (queued_ok s); [|discriminate].
+  destruct (counts_ok s); [|discriminate].
+  destruct (transients_empty s); [|discriminate].
+  destruct (observers_ok s); [|discriminate].
+  destruct (binds_ok s); [|discriminate].
+  repeat split.
+Qed.
+
+Lemma elem_allNodes s n : n ∈ allNodes s <-> (is_Some (nodes s !! n) /\ (n < next s)%nat).
+Proof. unfold allNodes. rewrite elem_of_list_filter, elem_of_seq. intuition lia. Qed.
+
+Lemma forallb_elem {A} (f : A -> bool) l x : forallb f l = true -> x ∈ l -> f x = true.
+Proof. intros H Hx. rewrite forallb_forall in H. apply H, elem_of_list_In, Hx. Qed.
+
+(* a registered (= necessary) node of a well-formed state has a proper height *)
+Lemma wfb_necessary_height s n :
+  wfb s = true -> is_Some (nodes s !! n) -> (n < next s)%nat ->
+  isNecessary (nd s n) = true -> 0 <= height (nd s n).
+Proof.
+  intros (_ & _ & Q3 & _ & Q5 & _)%wfb_clauses Hs Hn Hnec.
+  assert (Hin : n ∈ allNodes s) by (apply elem_allNodes; auto).
+  pose proof (forallb_elem _ _ _ Q3 Hin) as E3. pose proof (forallb_elem _ _ _ Q5 Hin) as E5.
+  cbv beta zeta in E3, E5. rewrite Hnec in E3. destruct (inGraph (nd s n)); [|discriminate]. cbn in E5.
+  apply andb_true_iff in E5 as [E5 _]. apply andb_true_iff in E5 as [E5 _]. apply andb_true_iff in E5 as [E5 _]. lia.
+Qed.
+
+Lemma wfb_transients s : wfb s = true ->
+  status s = 0 /\ setDuring s = [] /\ setRemoved s = [] /\ handlers s = [] /\ invq s = [].
+Proof.
+  intros (_ & _ & _ & _ & _ & _ & _ & Q8 & _)%wfb_clauses. unfold transients_empty in Q8.
+  repeat (apply andb_true_iff in Q8 as [Q8 ?]).
+  repeat match goal with H : bool_decide _ = true |- _ => apply bool_decide_eq_true in H end.
+  repeat split; auto. lia.
+Qed.
+
+(** * 3. C12: var writes *)
+
+(* the VarEqual test that makes a write a no-op *)
+Definition eqNoop (s : state) (v : nid) (x : Z) : bool :=
+  match nkind (nd s v) with KVar e => e | _ => false end
+  && negb (bool_decide (is_Some (pending (nd s v)))) && (value (nd s v) =? x).
+
+(* the state a deferred (mid-pass) write produces *)
+Definition deferSet (s : state) (v : nid) (x : Z) : state :=
+  (upd s v (set pending (fun _ => Some x))) <| setDuring := insert_sorted v (setDuring s) |>.
+
+(* the effective value of a var: the deferred one when there is one *)
+Definition cur (s : state) (v : nid) : Z :=
+  match pending (nd s v) with Some p => p | None => value (nd s v) end.
+
+Lemma varSet_unfold s v x :
+  varSet s v x =
+  if eqNoop s v x then Ok s
+  else if status s =? 1 then Ok (deferSet s v x)
+  else let s1 := upd s v (set value (fun _ => x)) in
+       if isNecessary (nd s1 v) then setStale s1 v else Ok s1.
+Proof. reflexivity. Qed.
+
+Lemma varUpdate_unfold s v d : varUpdate s v d = varSet s v (norm (cur s v + d)).
+Proof. reflexivity. Qed.
+
+Lemma varSet_status s v x s' : varSet s v x = Ok s' -> status s' = status s.
+Proof.
+  rewrite varSet_unfold. destruct (eqNoop s v x); [intros [= <-]; reflexivity|].
+  destruct (status s =? 1); [intros [= <-]; reflexivity|]. cbv zeta.
+  destruct (isNecessary _); [|intros [= <-]; reflexivity].
+  intros [[_ ->]|(_ & [w ->] & _)]%setStale_spec; reflexivity.
+Qed.
+
+Lemma varSet_isVar s v x s' w : varSet s v x = Ok s' -> isVar s' w = isVar s w.
+Proof.
+  rewrite varSet_unfold. destruct (eqNoop s v x); [intros [= <-]; reflexivity|].
+  destruct (status s =? 1).
+  { intros [= <-]. unfold deferSet. change (isVar (upd s v (set pending (fun _ => Some x))) w = isVar s w).
+    apply isVar_upd. intros []; reflexivity. }
+  cbv zeta. destruct (isNecessary _).
+  - intros H. rewrite (setStale_isVar _ _ _ w H). apply isVar_upd. intros []; reflexivity.
+  - intros [= <-]. apply isVar_upd. intros []; reflexivity.
+Qed.
+
+(** C12.1: a write between passes is the var's value at once; last write wins *)
+Lemma C12_set_between_passes s v x s' :
+  status s = 0 -> isVar s v = true -> varSet s v x = Ok s' -> value (nd s' v) = x.
+Proof.
+  intros Hst Hv. pose proof (isVar_some _ _ Hv) as Hs. rewrite varSet_unfold.
+  destruct (eqNoop s v x) eqn:En.
+  { intros [= <-]. unfold eqNoop in En. apply andb_true_iff in En as [_ En]. lia. }
+  rewrite Hst. cbn [Z.eqb]. cbv zeta.
+  assert (Hval : value (nd (upd s v (set value (fun _ => x))) v) = x).
+  { rewrite nd_upd_same by exact Hs. destruct (nd s v); reflexivity. }
+  destruct (isNecessary _); [|intros [= <-]; exact Hval].
+  intros H. destruct (setStale_nd _ _ _ v H) as [a ->]. revert Hval.
+  generalize (nd (upd s v (set value (fun _ => x))) v). intros [] E; exact E.
+Qed.
+
+Lemma run_SetVar_cons s v x xs :
+  isVar s v = true ->
+  run s (map (SetVar v) (x :: xs)) = (s1 <-! varSet s v x; run s1 (map (SetVar v) xs)).
+Proof.
+  intros Hv. cbn [map run op_ok step]. rewrite Hv. unfold lift, ok.
+  destruct (varSet s v x); reflexivity.
+Qed.
+
+Lemma C12_last_write_wins v : forall xs x s s',
+  status s = 0 -> isVar s v = true ->
+  run s (map (SetVar v) (xs ++ [x])) = Ok s' ->
+  value (nd s' v) = x /\ status s' = 0 /\ isVar s' v = true.
+Proof.
+  induction xs as [|y xs IH]; intros x s s' Hst Hv H.
+  - cbn [app] in H. rewrite run_SetVar_cons in H by exact Hv.
+    apply rbind_ok in H as (s1 & H1 & [= <-]).
+    split; [eapply C12_set_between_passes; eauto|].
+    split; [rewrite (varSet_status _ _ _ _ H1); exact Hst|rewrite (varSet_isVar _ _ _ _ v H1); exact Hv].
+  - cbn [app] in H. rewrite run_SetVar_cons in H by exact Hv.
+    apply rbind_ok in H as (s1 & H1 & H). apply IH in H; [exact H| |].
+    + rewrite (varSet_status _ _ _ _ H1); exact Hst.
+    + rewrite (varSet_isVar _ _ _ _ v H1); exact Hv.
+Qed.
+
+(** C12.2: a write never faults *)
+Lemma varSet_total_when s v x :
+  (isNecessary (nd s v) = true -> -1 <= height (nd s v)) -> exists s', varSet s v x = Ok s'.
+Proof.
+  intros Hh. rewrite varSet_unfold. destruct (eqNoop s v x); [eauto|].
+  destruct (status s =? 1); [eauto|]. cbv zeta.
+  assert (En : isNecessary (nd (upd s v (set value (fun _ => x))) v) = isNecessary (nd s v)).
+  { apply (nd_upd_keep isNecessary). intros []; reflexivity. }
+  rewrite En. destruct (isNecessary (nd s v)); [|eauto].
+  apply setStale_total. rewrite (nd_upd_keep height) by (intros []; reflexivity). auto.
+Qed.
+
+Lemma C12_set_total s v x :
+  wfb s = true -> isVar s v = true -> (v < next s)%nat -> exists s', varSet s v x = Ok s'.
+Proof.
+  intros Hwf Hv Hn. apply varSet_total_when. intros Hnec.
+  pose proof (wfb_necessary_height s v Hwf (isVar_some _ _ Hv) Hn Hnec). lia.
+Qed.
+
+Lemma C12_update_total s v d :
+  wfb s = true -> isVar s v = true -> (v < next s)%nat -> exists s', varUpdate s v d = Ok s'.
+Proof. intros. rewrite varUpdate_unfold. apply C12_set_total; assumption. Qed.
+
+Lemma C12_set_unobserved_total s v x :
+  height (nd s v) = unset -> exists s', varSet s v x = Ok s'.
+Proof. intros Hh. apply varSet_total_when. rewrite Hh. unfold unset. lia. Qed.
+
+Lemma C12_update_unobserved_total s v d :
+  height (nd s v) = unset -> exists s', varUpdate s v d = Ok s'.
+Proof. intros. rewrite varUpdate_unfold. apply C12_set_unobserved_total; assumption. Qed.
+
+(** C12.3: a mid-pass write is deferred whole *)
+Lemma C12_midpass_set_is_deferred s v x :
+  status s = 1 -> varSet s v x = Ok (if eqNoop s v x then s else deferSet s v x).
+Proof.
+  intros Hst. rewrite varSet_unfold, Hst. cbn [Z.eqb]. destruct (eqNoop s v x); reflexivity.
+Qed.
+
+Lemma set_pending_eta (y : node) p : set pending (fun _ => p) y = y <| pending := pending (set pending (fun _ => p) y) |>.
+Proof. destruct y; reflexivity. Qed.
+
+Lemma deferSet_frame s v x :
+  let s' := deferSet s v x in
+  binds s' = binds s /\ next s' = next s /\ reg s' = reg s /\ obs s' = obs s /\ heap s' = heap s /\
+  adj s' = adj s /\ invq s' = invq s /\ stabNum s' = stabNum s /\ status s' = status s /\
+  numNodes s' = numNodes s /\ setRemoved s' = setRemoved s /\ handlers s' = handlers s /\
+  maxHeight s' = maxHeight s /\ log s' = log s /\
+  setDuring s' = insert_sorted v (setDuring s) /\
+  (forall m, nd s' m = nd s m <| pending := pending (nd s' m) |>) /\
+  (forall m, m <> v -> nd s' m = nd s m) /\
+  (is_Some (nodes s !! v) -> pending (nd s' v) = Some x).
+Proof.
+  cbv zeta. unfold deferSet. repeat (split; [reflexivity|]).
+  change (forall m, nd (upd s v (set pending (fun _ => Some x))) m = nd s m <| pending := pending (nd (upd s v (set pending (fun _ => Some x))) m) |>)
+    /\ (forall m, m <> v -> nd (upd s v (set pending (fun _ => Some x))) m = nd s m)
+    /\ (is_Some (nodes s !! v) -> pending (nd (upd s v (set pending (fun _ => Some x))) v) = Some x).
+  split; [|split].
+  - intros m. rewrite nd_upd_if. destruct (decide (m = v)) as [->|Hne].
+    + destruct (nodes s !! v) eqn:E; [apply set_pending_eta|].
+      unfold nd. rewrite E. reflexivity.
+    + destruct (nd s m); reflexivity.
+  - intros m Hne. apply nd_upd_other, Hne.
+  - intros Hs. rewrite nd_upd_same by exact Hs. destruct (nd s v); reflexivity.
+Qed.
+
+Lemma C12_midpass_set_frame s v x s' :
+  status s = 1 -> varSet s v x = Ok s' ->
+  heap s' = heap s /\ log s' = log s /\ stabNum s' = stabNum s /\ status s' = status s /\
+  handlers s' = handlers s /\ setRemoved s' = setRemoved s /\
+  forall m, value (nd s' m) = value (nd s m) /\ recomputedAt (nd s' m) = recomputedAt (nd s m) /\
+            changedAt (nd s' m) = changedAt (nd s m) /\ setAt (nd s' m) = setAt (nd s m) /\
+            height (nd s' m) = height (nd s m) /\ valid (nd s' m) = valid (nd s m) /\
+            parents (nd s' m) = parents (nd s m) /\ children (nd s' m) = children (nd s m).
+Proof.
+  intros Hst. rewrite (C12_midpass_set_is_deferred _ _ _ Hst). destruct (eqNoop s v x); intros [= <-].
+  - repeat split.
+  - destruct (deferSet_frame s v x) as (_ & _ & _ & _ & E5 & _ & _ & E8 & E9 & _ & E11 & E12 & _ & E14 & _ & En & _).
+    repeat (split; [assumption|]). intros m. rewrite (En m). destruct (nd s m); repeat split.
+Qed.
+
+(** C12.4: successive mid-pass updates compose *)
+Lemma varUpdate_midpass_cur s v d s' :
+  status s = 1 -> isVar s v = true -> varUpdate s v d = Ok s' ->
+  cur s' v = norm (cur s v + d) /\ status s' = 1 /\ isVar s' v = true /\
+  (pending (nd s' v) = Some (norm (cur s v + d)) \/
+   (pending (nd s' v) = None /\ pending (nd s v) = None /\ nkind (nd s v) = KVar true)).
+Proof.
+  intros Hst Hv H. pose proof (isVar_some _ _ Hv) as Hs.
+  split; [|split; [rewrite (varSet_status _ _ _ _ H); exact Hst|split; [rewrite (varSet_isVar _ _ _ _ v H); exact Hv|]]];
+    rewrite varUpdate_unfold, (C12_midpass_set_is_deferred _ _ _ Hst) in H;
+    destruct (eqNoop s v _) eqn:En; injection H as <-.
+  - unfold eqNoop in En. apply andb_true_iff in En as [En E2]. apply andb_true_iff in En as [_ En].
+    apply negb_true_iff, bool_decide_eq_false in En.
+    unfold cur at 1. destruct (pending (nd s v)); [exfalso; apply En; eauto|]. lia.
+  - destruct (deferSet_frame s v (norm (cur s v + d))) as (_ & _ & _ & _ & _ & _ & _ & _ & _ & _ & _ & _ & _ & _ & _ & _ & _ & Ep).
+    unfold cur at 1. rewrite (Ep Hs). reflexivity.
+  - right. unfold eqNoop in En. apply andb_true_iff in En as [En E2]. apply andb_true_iff in En as [E0 En].
+    apply negb_true_iff, bool_decide_eq_false in En.
+    assert (pending (nd s v) = None) by (destruct (pending (nd s v)); [exfalso; apply En; eauto|reflexivity]).
+    repeat split; try assumption. destruct (nkind (nd s v)); try discriminate. subst. reflexivity.
+  - left. destruct (deferSet_frame s v (norm (cur s v + d))) as (_ & _ & _ & _ & _ & _ & _ & _ & _ & _ & _ & _ & _ & _ & _ & _ & _ & Ep).
+    exact (Ep Hs).
+Qed.
+
+Lemma C12_updates_compose s v d1 d2 s1 s2 :
+  status s = 1 -> isVar s v = true ->
+  varUpdate s v d1 = Ok s1 -> varUpdate s1 v d2 = Ok s2 ->
+  cur s2 v = norm (norm (cur s v + d1) + d2) /\
+  ((nkind (nd s v) = KVar false \/ is_Some (pending (nd s v))) ->
+   pending (nd s2 v) = Some (norm (norm (cur s v + d1) + d2))).
+Proof.
+  intros Hst Hv H1 H2.
+  destruct (varUpdate_midpass_cur _ _ _ _ Hst Hv H1) as (C1 & St1 & V1 & P1).
+  destruct (varUpdate_midpass_cur _ _ _ _ St1 V1 H2) as (C2 & St2 & V2 & P2).
+  split; [rewrite C2, C1; reflexivity|]. intros Hk.
+  destruct P2 as [P2|(_ & P2 & _)]; [rewrite P2, C1; reflexivity|].
+  destruct P1 as [P1|(_ & P1 & K1)]; [congruence|].
+  destruct Hk as [Hk|[? Hk]]; congruence.
+Qed.
